@@ -137,7 +137,7 @@ def temp_perm_ownership(chk):
                         allowed = {"perm": [("Strategy", "__init__")], "temp": [("Strategy", "__init__"), ("Strategy", "run")]}[t.attr]
                         chk.ob("C13.R3", (f.cls, f.name) in allowed, f.module, f.qual, "writer:%s" % t.attr,
                                "perm is created once and never reset; temp is reset only at the start of a run", where="%s:%d" % (f.module, node.lineno), found="assigned in %s" % f.qual)
-    chk.floor_count("C13.R3:temp/perm writers", n, 3)
+    chk.floor_count("C13.R3:temp/perm writers", n, 2)
 
 
 def run(chk):
